@@ -10,5 +10,10 @@ CONSTANTS
   Video <- Vid2
   NoBtrt <- T2
   RecordHist = FALSE
-INVARIANTS Listed TypeOK
+  FixBufResize = TRUE
+  FixCtrResize = TRUE
+  FixDropBound = TRUE
+  FixDeriveGuards = TRUE
+  FixLateTrack = TRUE
+INVARIANTS NoPanic Listed Bounded TypeOK
 PROPERTIES NewestMono
